@@ -35,7 +35,8 @@ def cases(draw):
         ts = [t0 + c + draw(gens.fl(0, 0.05 * P)) for _ in range(n)]
     return {"t": [gens.rounded(x, 13) for x in ts], "P": P, "P_unit": draw(st.sampled_from(["d", "yr", "h"])),
             "t_ref": draw(st.sampled_from(["default", "explicit"])), "t_ref_val": t0 - draw(gens.fl(0, 3)) * P,
-            "n_bins": draw(st.integers(1, 50)), "perm_seed": draw(st.integers(0, 10**6)), "mode": mode}
+            "n_bins": draw(st.integers(1, 50)), "perm_seed": draw(st.integers(0, 10**6)), "mode": mode,
+            "clean": draw(st.sampled_from([True, True, False])), "presorted": draw(st.booleans())}
 
 
 def _f(x):
@@ -64,6 +65,8 @@ def make(case, t, t_ref_val):
     if case["t_ref"] == "explicit":
         kw["t_ref"] = Time(t_ref_val, format="mjd", scale="tcb")
     n = len(t)
+    if not case.get("clean", True):
+        kw["clean"] = False     # documented option: no filtering of non-finite values (there are none here)
     data = tj.RVData(t=np.asarray(t, dtype=float), rv=np.arange(n, dtype=float) * u.km / u.s, rv_err=np.ones(n) * u.km / u.s, **kw)
     s = tj.JokerSamples()
     s["P"] = np.array([(case["P"] * u.day).to_value(unit(case["P_unit"]))]) * unit(case["P_unit"])
@@ -77,6 +80,8 @@ def body_factory(ctx):
 
     def body(case):
         t = np.array(case["t"], dtype=float)
+        if case.get("presorted"):
+            t = np.sort(t)
         data, s = make(case, t, case["t_ref_val"])
         P = s["P"].to_value(u.day)[0]
         tref = case["t_ref_val"] if case["t_ref"] == "explicit" else t.min()
@@ -128,7 +133,7 @@ def body_factory(ctx):
             raise Violation("periods_spanned depends on the order of the observations", a=ps, b=ps_p)
         wrap = (1.0 - (phase.max() - phase.min())) >= (np.max(np.diff(np.sort(phase))) if len(t) > 1 else 0)
         ctx.note_case(case, len(t) >= 3, ["mode:" + case["mode"], "largest arc wraps" if wrap else "largest arc interior",
-                                          "t_ref:" + case["t_ref"], "n=%s" % ("1" if len(t) == 1 else ("2" if len(t) == 2 else ">=3"))])
+                                          "t_ref:" + case["t_ref"], "clean=%s" % case.get("clean", True), "n=%s" % ("1" if len(t) == 1 else ("2" if len(t) == 2 else ">=3"))])
 
     return body
 
@@ -137,7 +142,9 @@ def body_factory(ctx):
 def map_cases(draw):
     n = draw(st.integers(1, 30))
     vals = st.one_of(st.integers(-3, 3).map(float), gens.fl(-50, 50), st.just(float("-inf")))
-    return {"ln_prior": [draw(vals) for _ in range(n)], "ln_like": [draw(vals) for _ in range(n)]}
+    return {"ln_prior": [draw(vals) for _ in range(n)], "ln_like": [draw(vals) for _ in range(n)],
+            # an additional stored column (samples made from an MCMC trace carry one); it is not part of the definition
+            "ln_posterior": draw(st.one_of(st.none(), st.lists(gens.fl(-50, 50), min_size=n, max_size=n)))}
 
 
 def map_body_factory(ctx):
@@ -152,6 +159,8 @@ def map_body_factory(ctx):
         s["e"] = np.arange(n) / (n + 1.0)
         s["ln_prior"] = np.array(case["ln_prior"])
         s["ln_likelihood"] = np.array(case["ln_like"])
+        if case.get("ln_posterior") is not None:
+            s["ln_posterior"] = np.array(case["ln_posterior"])
         post = np.array(case["ln_prior"]) + np.array(case["ln_like"])
         if not np.isfinite(post).any():
             ctx.classes["map:outside domain (no finite log-posterior)"] += 1
@@ -167,7 +176,7 @@ def map_body_factory(ctx):
             if len(mm) != 1 or float(mm["P"].value[0]) != float(int(idx) + 1) or float(np.asarray(mm["ln_prior"])[0]) != case["ln_prior"][int(idx)]:
                 raise Violation("MAP_sample does not return the row at the reported index")
         ties = sum(1 for p in post if p == best) > 1
-        ctx.note_case(case, n >= 2, ["map:ties" if ties else "map:unique", "map:n=%s" % ("1" if n == 1 else ">1")])
+        ctx.note_case(case, n >= 2, ["map:ties" if ties else "map:unique", "map:ln_posterior column" if case.get("ln_posterior") is not None else "map:two columns", "map:n=%s" % ("1" if n == 1 else ">1")])
 
     return body
 
